@@ -5,20 +5,23 @@ PROP = {
     "lean_modules": ["Lc.Props.C12"],
     "leanchecker": True,
     "trusted_base": COMMON_TB + [
-        "Lc/Spec/KernelEscape.lean + KernelRender.lean: my transcription of the kernel's mountinfo rendering (seq_escape octal escaping, field layout)",
+        "Lc/Spec/KernelEscape.lean + KernelRender.lean: my transcription of the kernel's mountinfo rendering (seq_escape octal escaping, field layout; escape sets: paths blank/tab/newline/backslash, source additionally '#', option VALUES additionally ',' but not '=', option NAMES additionally ',' and '=')",
     ],
     "assumptions": [
         "mountinfo lines are shorter than bufio.Scanner's 64 KiB token limit",
-        "the kernel escapes at least space, tab, newline and backslash in path fields and additionally ',' in overlay option values",
+        "the kernel escapes at least space, tab, newline and backslash in path fields and additionally ',' in overlay option values; it does NOT escape '=' in option values (seq_show_option escapes the value with \", \\t\\n\\\\\" only, the name additionally with '=')",
     ],
-    "rule": "structured stream: random mount tables (1-9 mounts, stacked/nested mountpoints, 0-3 optional fields, overlay options in random order, path elements with spaces/tabs/newlines/backslashes/escape look-alikes) rendered kernel-style; malformed stream: byte mutations of rendered text; plus raw escape strings. A case is non-trivial unless the driver marks it trivial; distinct = distinct case JSON without id.",
+    "rule": "structured stream: random mount tables (1-9 mounts, stacked/nested mountpoints, 0-3 optional fields, overlay options in random order, path elements with spaces/tabs/newlines/backslashes/escape look-alikes; every other overlay directory has a component with one or more raw '=' such as a=b, k=v=w, cake=17.1, which the kernel does not escape) rendered kernel-style; malformed stream: byte mutations of rendered text; plus raw escape strings. A case is non-trivial unless the driver marks it trivial; distinct = distinct case JSON without id.",
 }
 
 META = {
     "text": "Lean theorems (Lc/Props/C12.lean, all full, no partial ones): "
             "unescape_mangle (the decoder inverts the kernel's octal escaping for every byte string and every escape set containing the backslash); "
-            "mangle_no_sep / mangle_no_sep_fields (escaped text contains no byte of the escape set other than backslash and octal digits: no blank, tab, newline, and in option values no ',' '='); "
-            "overlay_opts_recovered (for every super-option list - any order, foreign options, repeated keys, any value bytes - parseOverlayOpts of the rendered text yields the last lowerdir/upperdir/workdir); "
+            "mangle_no_sep / mangle_no_sep_fields (escaped text contains no byte of the escape set other than backslash and octal digits: no blank, tab, newline, in option values no ',', in option names no ',' and no '='); "
+            "mangle_optEsc_keeps_equals, value_equals_in_text (an '=' in an option VALUE is not escaped: the escaped value has exactly the '=' bytes of the raw value, for every byte string); mangle_optNameEsc_id (a name free of the name escape set is written as it is); "
+            "overlay_opts_recovered (for every super-option list - any order, foreign options, repeated keys, any value bytes - parseOverlayOpts of the rendered text yields the last lowerdir/upperdir/workdir; keys contain no ',' and no '=', values may contain '=' freely: the parser cuts at the first '=' only); "
+            "option_value_with_equals_roundtrip (for every overlay mount whose mountpoint and lower/upper/work directories are arbitrary byte strings - any number of '=', blanks, commas, backslashes - probeMounts of the kernel's text returns exactly those directories; no condition on '='); "
+            "split_at_every_equals_loses_value (witness: a reader that cuts name=value at every '=' - strings.Split for strings.SplitN(part, \"=\", 2) - returns /a for the lowerdir /a=b/c); "
             "probeLine_render (for every well-formed mount and every parser state, reading the rendered line appends exactly the expected entry, updates device table and shadow set; 0..n optional fields, arbitrary bytes in root/mountpoint/source/overlay dirs); "
             "probe_render (whole table: probeMounts(render t) = ok with list = entries t, in order - each entry with the mount id and parent id of its line, which ProbeMounts keeps since fix e546b99 -, and the expected device table; uses scanLines_render: the line scanner returns exactly the rendered lines); "
             "entries_inShadow (the theorem's shadow flags are the Spec's shadowFlags, which the driver's oracle uses); "
